@@ -56,6 +56,19 @@ def main(tier_, replay=None):
         else:
             s = execgen.gen_exec_schema(rng, with_mutation=True, n_objects=rng.randrange(2, 4))
             base = c08.small_cases(rng, s, n_cases, kinds=("mutation",))
+        # the selected mutation inside a document that also holds other operations (before / after it)
+        import re
+        for c in list(base):
+            m = re.match(r"^mutation\s*(\w+)?", c["query"])
+            if not m:
+                continue
+            name = m.group(1)
+            q = c["query"] if name else re.sub(r"^mutation", "mutation W", c["query"], count=1)
+            name = name or "W"
+            if rng.random() < 0.5:
+                base.append(dict(c, query=q + " query ZR { __typename }", opname=name))
+            else:
+                base.append(dict(c, query="query ZR { __typename } " + q + " query ZS { __typename }", opname=name))
         cases = asyncio.run(c08.fault_variants(s, base, rng, per_fault))
 
         async def go():
